@@ -147,7 +147,7 @@ func c03Wants(rs model.RowSet, keys []string) [][]string {
 }
 
 func runC03(run *common.Run) {
-	run.Rule = "case = one ReadRows with one RowSet (ranges with each bound unset/open/closed over the 7-key adversarial universe, optional explicit key, rows_limit) against one table content on one engine, result compared with the set-union model and the chunk-stream state machine. Enumerated sub-space: quick = all 289 single ranges (each bound unset / open / closed over the universe, or present with an empty key) x 8 key options x 4 limits x 3 tables, all 512 key-only row sets over the universe plus two absent keys (ascending and descending, with and without limit) x 3 tables, plus all ordered pairs of a 60-range stratified subset; thorough = ALL 289^2 range pairs x 8 key options (exhaustive for 'two ranges plus one key'). Non-trivial = result is a non-empty strict subset of the table, or an inverted range; distinct by (rowset, limit, table, engine). Further parts: duplicate/many-range sets, multi-message streams with limits at message boundaries and row-dropping filters, row sets of up to 1500 keys and 1100 ranges over a 3000-row table, a table of rows carrying 32 KiB - 1 MiB of values (byte thresholds crossed on the last cell of a row, mid-row and between rows), SampleRowKeys invariants on static tables and after every step of histories mixing SampleRowKeys with prefix drops, family drops, delete-all, row writes and row deletes."
+	run.Rule = "case = one ReadRows with one RowSet (ranges with each bound unset/open/closed over the 7-key adversarial universe, optional explicit key, rows_limit) against one table content on one engine, result compared with the set-union model and the chunk-stream state machine. Enumerated sub-space: quick = all 289 single ranges (each bound unset / open / closed over the universe, or present with an empty key) x 8 key options x 4 limits x 4 tables (the fourth: the full universe after ~11 MB of rewrites, so that the leveldb engines serve it from table files), all 512 key-only row sets over the universe plus two absent keys (ascending and descending, with and without limit) x 3 tables, plus all ordered pairs of a 60-range stratified subset; thorough = ALL 289^2 range pairs x 8 key options (exhaustive for 'two ranges plus one key'). Non-trivial = result is a non-empty strict subset of the table, or an inverted range; distinct by (rowset, limit, table, engine). Further parts: duplicate/many-range sets, multi-message streams with limits at message boundaries and row-dropping filters, row sets of up to 1500 keys and 1100 ranges over a 3000-row table, a table of rows carrying 32 KiB - 1 MiB of values (byte thresholds crossed on the last cell of a row, mid-row and between rows), SampleRowKeys invariants on static tables and after every step of histories mixing SampleRowKeys with prefix drops, family drops, delete-all, row writes and row deletes."
 	run.Assumptions = []string{"an END bound that is present with an empty key is not defined by the statement: 'no upper bound' and the literal reading (selects nothing) are both accepted, per bound mode; an empty START key selects everything under either reading", "inverted = start key > end key as raw bytes, both set"}
 	j := common.NewJournal("C03")
 	for ei, engine := range drive.Engines {
@@ -160,7 +160,9 @@ func runC03(run *common.Run) {
 			return
 		}
 		// three table contents: full universe, and two subsets
-		contents := [][]string{c03U, {"a", "a\x00\x00", "b"}, {"a\x00", "ab", "\xff", "\x00"}}
+		// ... and the full universe once more in a table whose rows were rewritten with 64 KiB values until ~11 MB had gone
+		// through the storage engine: its rows sit in the engine's table files, not only in its write buffer
+		contents := [][]string{c03U, {"a", "a\x00\x00", "b"}, {"a\x00", "ab", "\xff", "\x00"}, c03U}
 		var tables []c03Table
 		for ti, keys := range contents {
 			name := drive.MustTable(srv.Admin, fmt.Sprintf("u%d", ti), "f", "g")
@@ -173,6 +175,13 @@ func runC03(run *common.Run) {
 					muts = append(muts, model.Mut{Kind: model.SetCell, Fam: "f", Qual: "", TS: 1000, Val: "e" + k}, model.Mut{Kind: model.SetCell, Fam: "f", Qual: "", TS: 2000, Val: ""})
 				case 1:
 					muts = append(muts, model.Mut{Kind: model.SetCell, Fam: "g", Qual: "", TS: 1000, Val: ""}, model.Mut{Kind: model.SetCell, Fam: "g", Qual: "q", TS: 1000, Val: "w"})
+				}
+				if ti == 3 {
+					for rep := 0; rep < 24; rep++ {
+						drive.MutateRow(srv.Data, name, k, []model.Mut{{Kind: model.SetCell, Fam: "g", Qual: "big", TS: 1000, Val: strings.Repeat(string(rune('a'+rep)), 64<<10)}})
+					}
+					muts = append(muts, model.Mut{Kind: model.DelCol, Fam: "g", Qual: "big"})
+					run.Count("rows_rewritten_through_the_storage_engines_table_files", 1)
 				}
 				if st := drive.MutateRow(srv.Data, name, k, muts); !st.OK() {
 					run.Violation("setup", ei, "set-up write failed: "+st.String(), nil)
@@ -621,6 +630,15 @@ func c03Heavy(run *common.Run, srv *drive.Srv, engine string, ei int) {
 	}
 	for i := 0; i < n; i++ {
 		sets = append(sets, model.RowSet{Keys: []string{keys[i]}})
+	}
+	// bounds that are present with an EMPTY key, against a table whose rows sit in the storage engine's table files
+	// (not only in its write buffer): every mode of the other bound, alone and next to another range and a key
+	for _, mode := range []int{1, 2} {
+		for _, other := range []model.Bound{{}, {Mode: 1, Key: keys[10]}, {Mode: 2, Key: keys[10]}, {Mode: 1, Key: keys[n-1]}, {Mode: 2, Key: keys[n-1]}, {Mode: 1, Key: "\xff\xff"}} {
+			sets = append(sets, model.RowSet{Ranges: []model.Range{{Start: other, End: model.Bound{Mode: mode, Key: ""}}}})
+			sets = append(sets, model.RowSet{Ranges: []model.Range{{Start: model.Bound{Mode: mode, Key: ""}, End: other}}})
+			sets = append(sets, model.RowSet{Keys: []string{keys[3]}, Ranges: []model.Range{{Start: other, End: model.Bound{Mode: mode, Key: ""}}, {Start: model.Bound{Mode: 1, Key: keys[20]}, End: model.Bound{Mode: 2, Key: keys[22]}}}})
+		}
 	}
 	for si, rs := range sets {
 		for _, limit := range []int64{0, 1, 16, 17} {
